@@ -70,15 +70,15 @@ def do_import(wt, i, sid, prop, demo, conf):
     return dst
 
 
-def run(sid, tier='quick'):
+def run(sid, tier='quick', prop_override=None):
     d = os.path.join(VERIF, 'seeded', sid)
     meta = json.load(open(os.path.join(d, 'meta.json')))
-    prop = meta['property']
+    prop = prop_override or meta['property']
     rc, out = sh('git status --porcelain --untracked-files=no', cwd=REPO)
     if out.strip():
         print('refusing: /repo has local modifications:\n' + out)
         return 2
-    rec = {'tier': tier, 'at': time.strftime('%Y-%m-%d %H:%M:%S')}
+    rec = {'tier': tier, 'at': time.strftime('%Y-%m-%d %H:%M:%S'), 'check': prop}
     # the check rewrites evidence/<prop>.json; a run against a seeded change must not replace the
     # evidence of the unchanged tree
     ev = os.path.join(VERIF, 'evidence', prop + '.json')
@@ -113,4 +113,4 @@ if __name__ == '__main__':
     elif a[0] == 'import':
         print(do_import(a[1], a[2], a[3], a[4], a[5], json.loads(open(a[6]).read())))
     elif a[0] == 'run':
-        sys.exit(run(a[1], a[2] if len(a) > 2 else 'quick'))
+        sys.exit(run(a[1], a[2] if len(a) > 2 else 'quick', a[3] if len(a) > 3 else None))
